@@ -247,6 +247,10 @@ struct ModuleState {
 
 /// Runs the ported `transform()` loops of all modules under the seeded scheduler.
 pub fn run_l1(sc: &E1Scenario, plan: &L1Plan, inst: &mut Instance, rep: &mut RunReport) -> Vec<Call> {
+    run_l1_with_slot_base(sc, plan, inst, rep, 0)
+}
+
+pub fn run_l1_with_slot_base(sc: &E1Scenario, plan: &L1Plan, inst: &mut Instance, rep: &mut RunReport, slot_base: usize) -> Vec<Call> {
     let mut calls: Vec<Call> = Vec::new();
     let mut sched = Rng::new(plan.sched_seed);
     let mut cur_version: Vec<usize> = sc.files.iter().map(|_| 0).collect();
@@ -255,7 +259,7 @@ pub fn run_l1(sc: &E1Scenario, plan: &L1Plan, inst: &mut Instance, rep: &mut Run
         .modules
         .iter()
         .enumerate()
-        .map(|(i, _)| ModuleState { slot: i, rejected: false, done: false, outstanding: 0, rounds: 0, faulted: false, freed: false })
+        .map(|(i, _)| ModuleState { slot: slot_base + i, rejected: false, done: false, outstanding: 0, rounds: 0, faulted: false, freed: false })
         .collect();
     let mut pending: Vec<Pending> = (0..mods.len()).map(Pending::Start).collect();
     // JS: `lastLoadedConfigPath` is assigned after the await, so several modules may load the config
